@@ -1,12 +1,15 @@
 import CollectionsC.Proofs.ListHistory
+import CollectionsC.Proofs.ListAlloc
+import CollectionsC.Proofs.ListTraverse
 /-! # C04 — CC_List and CC_SList behave as ideal sequences, including bulk operations
 
 Statements and closing proofs (helpers: `Proofs/Chain.lean`, `Proofs/DList*.lean`, `Proofs/SList*.lean`).
 
 The concrete models `CC.DList` (`Model/LinkedList.lean`, mirrors `src/cc_list.c`) and `CC.SList`
-(`Model/SList.lean`, mirrors `src/cc_slist.c`) work on the state `Chain`: the node sequence plus the
-`size`/`head`/`tail` bookkeeping the C code updates by hand (pointers are node positions, `next`/`prev`
-links are abstracted — their consistency is checked on the real heap by the harness walkers).
+(`Model/SList.lean`, mirrors `src/cc_slist.c`) work on the state `Chain`: the node sequence, the
+`size`/`head`/`tail` bookkeeping the C code updates by hand and the allocator triple stored in the
+header (pointers are node positions; the raw `next`/`prev` links are abstracted — their consistency
+is checked on the real heap by the harness walkers, see the remark at `mirror_model`).
 The abstract spec `CC.Spec.LSeq` is a pair of plain `List Nat` (destination, source) with the
 statuses the API documents.
 
@@ -15,166 +18,282 @@ every element value (0 = NULL, duplicates), every index in `Nat`, every predicat
 every finite history over the 25 operations of `Spec.LSeq.Op` (insertions first/last/at,
 add_all/add_all_at, splice/splice_at, removals by value/index/first/last/all, replace, reverse,
 filter_mut, get_first/last/at, index_of, contains, contains_value, size, to_array, foreach, and the
-exchange of the two lists' roles), every allocator state and every refusal schedule.
-Documented precondition: the node blocks of both lists are live in the ledger
-(`nodes ≤ m.live`, which construction through the API establishes). -/
+exchange of the two lists' roles), every allocator state, every refusal schedule and every
+assignment of the two allocator triples (configured / C library) to the two lists.
+
+Documented preconditions:
+* the node blocks of both lists are live in the ledger of their triple (`PairOk`, which construction
+  through the API establishes);
+* the pair models two **distinct** list objects (`add_all(l, l)` / `splice(l, l)` are outside the model);
+* `splice`/`splice_at` move the nodes themselves, so a history uses them only between lists on the
+  same allocator triple (`Compat`; across triples the destination later releases foreign blocks —
+  recorded as a known finding, witness `corpus/list/defect_splice_two_triples.ops`). -/
 namespace CC.Properties.C04
 open CC CC.Chain
 open CC.Spec
 open CC.Spec.LSeq (Op Out Params)
 
-/-! `PairOk s m` (`Proofs/ListHistory.lean`): both lists satisfy the representation invariant and their
-node blocks are live, `s.1.Inv ∧ s.2.Inv ∧ nodes ≤ m.live`.
+/-! `PairOk s m` (`Proofs/ListHistory.lean`): both lists satisfy the representation invariant and, per
+allocator triple `t`, the node blocks held through `t` are live: `owned s t ≤ m.liveT t`.
 
 `StepRefines dbl P s op m r` — what one step `r` guarantees relative to the ideal step:
-* `PairOk` is preserved;
+* `PairOk` is preserved; the lists keep their triples (`swapRoles` exchanges them);
 * **atomicity**: status `CC_ERR_ALLOC` ⇒ nothing else is reported, both lists are *physically*
-  unchanged and `live` is what it was;
+  unchanged and every `liveT` is what it was;
 * **refinement**: otherwise status, out-value, out-sequence and both contents are those of
   `Spec.LSeq.step`;
-* no checked access faults, the C library allocator is not used;
-* **ledger balance**: `live` moves exactly with the number of nodes;
-* an allocator that never refuses never produces `CC_ERR_ALLOC`. -/
+* no checked access faults; the allocator of the *other* kind is not touched (`Mem.Frame`);
+* **ledger balance**: per triple, `liveT` moves exactly with the number of nodes held through it;
+* an allocator that never refuses never produces `CC_ERR_ALLOC`;
+* `CC_ERR_ALLOC` is reported **iff** the allocator refused a request during the step. -/
 open CC.ListHistory
-
-theorem stepRefines_of_stepOk {dbl : Bool} {P : Params} {s : Chain × Chain} {op : Op} {m : Mem}
-    {r : Out × (Chain × Chain) × Mem} {a' b' : List Nat} (h : PairOk s m)
-    (hs : s = (ofList s.1.abs, ofList s.2.abs))
-    (ok : StepOk dbl P s.1.abs s.2.abs op m r a' b') : StepRefines dbl P s op m r := by
-  have hst := ok.state
-  have e1 : r.2.1.1.abs = a' := by rw [hst]; rfl
-  have e2 : r.2.1.2.abs = b' := by rw [hst]; rfl
-  refine ⟨⟨?_, ?_, ?_⟩, ?_, ?_, ok.fault, ok.libc, by rw [e1, e2]; exact ok.ledger, ok.nosched⟩
-  · rw [hst]; exact ofList_inv _
-  · rw [hst]; exact ofList_inv _
-  · rw [e1, e2]; have := ok.ledger; have := h.2.2; omega
-  · intro he
-    obtain ⟨ha, hb, ho⟩ := ok.atomic he
-    refine ⟨ho, ?_, ?_⟩
-    · rw [hst, ha, hb]; exact hs.symm
-    · have := ok.ledger; rw [ha, hb] at this; omega
-  · intro he; rw [e1, e2]; exact ok.refines he
 
 /-- **One step of `cc_list.c` refines one step of the ideal pair of lists**, for every state
 satisfying the invariant, every operation, every argument and every allocator state. -/
-theorem dlist_step_refines (P : Params) (s : Chain × Chain) (op : Op) (m : Mem) (h : PairOk s m) :
-    StepRefines true P s op m (DList.step P s op m) := by
-  have hs : s = (ofList s.1.abs, ofList s.2.abs) := by
-    rw [← h.1.eq, ← h.2.1.eq]
-  obtain ⟨a', b', ok⟩ := DList.step_ok P s.1.abs s.2.abs m h.2.2 op
+theorem dlist_step_refines (P : Params) (s : Chain × Chain) (op : Op) (m : Mem) (h : PairOk s m)
+    (hc : SpliceOk s.1.triple s.2.triple op) : StepRefines true P s op m (DList.step P s op m) := by
+  have hs : s = (ofList s.1.triple s.1.abs, ofList s.2.triple s.2.abs) := by rw [← h.1.eq, ← h.2.1.eq]
+  obtain ⟨a', b', t1', t2', ok⟩ := DList.step_ok P s.1.triple s.2.triple s.1.abs s.2.abs m h.2.2 op hc
   rw [← hs] at ok
-  exact stepRefines_of_stepOk h hs ok
+  exact stepRefines_of_stepOk h ok
 
 /-- **One step of `cc_slist.c` refines one step of the ideal pair of lists.** -/
-theorem slist_step_refines (P : Params) (s : Chain × Chain) (op : Op) (m : Mem) (h : PairOk s m) :
-    StepRefines false P s op m (SList.step P s op m) := by
-  have hs : s = (ofList s.1.abs, ofList s.2.abs) := by
-    rw [← h.1.eq, ← h.2.1.eq]
-  obtain ⟨a', b', ok⟩ := SList.step_ok P s.1.abs s.2.abs m h.2.2 op
+theorem slist_step_refines (P : Params) (s : Chain × Chain) (op : Op) (m : Mem) (h : PairOk s m)
+    (hc : SpliceOk s.1.triple s.2.triple op) : StepRefines false P s op m (SList.step P s op m) := by
+  have hs : s = (ofList s.1.triple s.1.abs, ofList s.2.triple s.2.abs) := by rw [← h.1.eq, ← h.2.1.eq]
+  obtain ⟨a', b', t1', t2', ok⟩ := SList.step_ok P s.1.triple s.2.triple s.1.abs s.2.abs m h.2.2 op hc
   rw [← hs] at ok
-  exact stepRefines_of_stepOk h hs ok
+  exact stepRefines_of_stepOk h ok
 
 /-- **C04, all histories, any refusal schedule (doubly linked).** From any pair of states satisfying the
 invariant, every history yields the outputs and final contents of the ideal lists on which exactly
-the refused operations (status `CC_ERR_ALLOC`) did not happen; the invariant holds at the end, no
-access faulted, the C library allocator was not used. -/
-theorem dlist_history_refines_skipping (P : Params) (ops : List Op) (s : Chain × Chain) (m : Mem) (h : PairOk s m) :
+the refused operations (status `CC_ERR_ALLOC`) did not happen; the invariant holds at the end and no
+access faulted. -/
+theorem dlist_history_refines_skipping (P : Params) (ops : List Op) (s : Chain × Chain) (m : Mem) (h : PairOk s m)
+    (hc : Compat s ops) :
     (DList.run P s ops m).1 = (LSeq.runSkipping true P (s.1.abs, s.2.abs) ops ((DList.run P s ops m).1.map (·.st))).1 ∧
     ((DList.run P s ops m).2.1.1.abs, (DList.run P s ops m).2.1.2.abs) =
       (LSeq.runSkipping true P (s.1.abs, s.2.abs) ops ((DList.run P s ops m).1.map (·.st))).2 ∧
     PairOk (DList.run P s ops m).2.1 (DList.run P s ops m).2.2 ∧
-    (DList.run P s ops m).2.2.fault = m.fault ∧ (DList.run P s ops m).2.2.libc = m.libc := by
+    (DList.run P s ops m).2.2.fault = m.fault := by
   rw [dlist_run_eq]
-  exact run_skipping (dlist_step_refines P) ops s m h
+  exact run_skipping (dlist_step_refines P) ops s m h hc
 
 /-- **C04, all histories (doubly linked), allocator never refuses**: every status, out-value,
 out-sequence and both final contents equal those of the ideal lists. -/
 theorem dlist_history_refines (P : Params) (ops : List Op) (s : Chain × Chain) (m : Mem) (h : PairOk s m)
-    (hs : m.sched = []) :
+    (hc : Compat s ops) (hs : m.sched = []) :
     (DList.run P s ops m).1 = (LSeq.run true P (s.1.abs, s.2.abs) ops).1 ∧
     ((DList.run P s ops m).2.1.1.abs, (DList.run P s ops m).2.1.2.abs) = (LSeq.run true P (s.1.abs, s.2.abs) ops).2 ∧
     PairOk (DList.run P s ops m).2.1 (DList.run P s ops m).2.2 ∧
-    (DList.run P s ops m).2.2.fault = m.fault ∧ (DList.run P s ops m).2.2.libc = m.libc ∧
-    (DList.run P s ops m).2.2.sched = [] := by
+    (DList.run P s ops m).2.2.fault = m.fault ∧ (DList.run P s ops m).2.2.sched = [] := by
   rw [dlist_run_eq]
-  exact run_exact (dlist_step_refines P) ops s m h hs
+  exact run_exact (dlist_step_refines P) ops s m h hc hs
 
 /-- **C04, all histories, any refusal schedule (singly linked).** -/
-theorem slist_history_refines_skipping (P : Params) (ops : List Op) (s : Chain × Chain) (m : Mem) (h : PairOk s m) :
+theorem slist_history_refines_skipping (P : Params) (ops : List Op) (s : Chain × Chain) (m : Mem) (h : PairOk s m)
+    (hc : Compat s ops) :
     (SList.run P s ops m).1 = (LSeq.runSkipping false P (s.1.abs, s.2.abs) ops ((SList.run P s ops m).1.map (·.st))).1 ∧
     ((SList.run P s ops m).2.1.1.abs, (SList.run P s ops m).2.1.2.abs) =
       (LSeq.runSkipping false P (s.1.abs, s.2.abs) ops ((SList.run P s ops m).1.map (·.st))).2 ∧
     PairOk (SList.run P s ops m).2.1 (SList.run P s ops m).2.2 ∧
-    (SList.run P s ops m).2.2.fault = m.fault ∧ (SList.run P s ops m).2.2.libc = m.libc := by
+    (SList.run P s ops m).2.2.fault = m.fault := by
   rw [slist_run_eq]
-  exact run_skipping (slist_step_refines P) ops s m h
+  exact run_skipping (slist_step_refines P) ops s m h hc
 
 /-- **C04, all histories (singly linked), allocator never refuses.** -/
 theorem slist_history_refines (P : Params) (ops : List Op) (s : Chain × Chain) (m : Mem) (h : PairOk s m)
-    (hs : m.sched = []) :
+    (hc : Compat s ops) (hs : m.sched = []) :
     (SList.run P s ops m).1 = (LSeq.run false P (s.1.abs, s.2.abs) ops).1 ∧
     ((SList.run P s ops m).2.1.1.abs, (SList.run P s ops m).2.1.2.abs) = (LSeq.run false P (s.1.abs, s.2.abs) ops).2 ∧
     PairOk (SList.run P s ops m).2.1 (SList.run P s ops m).2.2 ∧
-    (SList.run P s ops m).2.2.fault = m.fault ∧ (SList.run P s ops m).2.2.libc = m.libc ∧
-    (SList.run P s ops m).2.2.sched = [] := by
+    (SList.run P s ops m).2.2.fault = m.fault ∧ (SList.run P s ops m).2.2.sched = [] := by
   rw [slist_run_eq]
-  exact run_exact (slist_step_refines P) ops s m h hs
+  exact run_exact (slist_step_refines P) ops s m h hc hs
 
-/-- **C04 from the constructors.** Two lists built by `cc_list_new_conf` are empty, satisfy the
-invariant, own one header block each; hence every history on them behaves like a history on two
-empty ideal lists. -/
-theorem dlist_new_history_refines (P : Params) (ops : List Op) (m0 : Mem) (hs : m0.sched = []) :
-    ∃ l0 l1 m2, (DList.new m0).2.1 = some l0 ∧ (DList.new (DList.new m0).2.2).2.1 = some l1 ∧
-      m2 = (DList.new (DList.new m0).2.2).2.2 ∧ m2.live = m0.live + 2 ∧
+/-- per allocator triple the ledger moves, over a whole history, exactly with the node blocks held
+through that triple (both lists, any refusal schedule) -/
+theorem dlist_history_ledger (P : Params) (ops : List Op) (s : Chain × Chain) (m : Mem) (h : PairOk s m)
+    (hc : Compat s ops) (t : Triple) :
+    (DList.run P s ops m).2.2.liveT t + owned s t = m.liveT t + owned (DList.run P s ops m).2.1 t := by
+  rw [dlist_run_eq]
+  exact run_ledger (dlist_step_refines P) ops s m h hc t
+theorem slist_history_ledger (P : Params) (ops : List Op) (s : Chain × Chain) (m : Mem) (h : PairOk s m)
+    (hc : Compat s ops) (t : Triple) :
+    (SList.run P s ops m).2.2.liveT t + owned s t = m.liveT t + owned (SList.run P s ops m).2.1 t := by
+  rw [slist_run_eq]
+  exact run_ledger (slist_step_refines P) ops s m h hc t
+
+/-! ### from the constructors -/
+
+/-- two freshly constructed lists (triples `t1`, `t2`) form a pair satisfying the hypotheses -/
+theorem dlist_new_pairOk (t1 t2 : Triple) (m0 : Mem) (l0 l1 : Chain)
+    (h0 : (DList.new t1 m0).2.1 = some l0) (h1 : (DList.new t2 (DList.new t1 m0).2.2).2.1 = some l1) :
+    l0 = ofList t1 [] ∧ l1 = ofList t2 [] ∧ PairOk (l0, l1) (DList.new t2 (DList.new t1 m0).2.2).2.2 ∧
+    (DList.new t2 (DList.new t1 m0).2.2).2.2.fault = m0.fault ∧
+    (m0.sched = [] → (DList.new t2 (DList.new t1 m0).2.2).2.2.sched = []) := by
+  simp only [DList.new_eq] at h0 h1 ⊢
+  by_cases a1 : (m0.allocT t1).1 = true
+  · simp only [a1, if_true] at h0 h1 ⊢
+    by_cases a2 : ((m0.allocT t1).2.allocT t2).1 = true
+    · simp only [a2, if_true, Option.some.injEq] at h0 h1 ⊢
+      subst h0 h1
+      have e1 := Mem.eff_alloc_true t1 m0 a1
+      have e2 := Mem.eff_alloc_true t2 _ a2
+      exact ⟨rfl, rfl, ⟨ofList_inv _, ofList_inv _, by intro t; simp only [owned, ownedBy, ofList_abs, ofList_triple, List.length_nil]; by_cases x1 : t1 = t <;> by_cases x2 : t2 = t <;> simp [x1, x2]⟩,
+        by rw [e2.fault, e1.fault], fun hs => e2.sched (e1.sched hs)⟩
+    · simp [a2] at h1
+  · simp [a1] at h0
+
+theorem slist_new_pairOk (t1 t2 : Triple) (m0 : Mem) (l0 l1 : Chain)
+    (h0 : (SList.new t1 m0).2.1 = some l0) (h1 : (SList.new t2 (SList.new t1 m0).2.2).2.1 = some l1) :
+    l0 = ofList t1 [] ∧ l1 = ofList t2 [] ∧ PairOk (l0, l1) (SList.new t2 (SList.new t1 m0).2.2).2.2 ∧
+    (SList.new t2 (SList.new t1 m0).2.2).2.2.fault = m0.fault ∧
+    (m0.sched = [] → (SList.new t2 (SList.new t1 m0).2.2).2.2.sched = []) := by
+  simp only [SList.new_eq] at h0 h1 ⊢
+  by_cases a1 : (m0.allocT t1).1 = true
+  · simp only [a1, if_true] at h0 h1 ⊢
+    by_cases a2 : ((m0.allocT t1).2.allocT t2).1 = true
+    · simp only [a2, if_true, Option.some.injEq] at h0 h1 ⊢
+      subst h0 h1
+      have e1 := Mem.eff_alloc_true t1 m0 a1
+      have e2 := Mem.eff_alloc_true t2 _ a2
+      exact ⟨rfl, rfl, ⟨ofList_inv _, ofList_inv _, by intro t; simp only [owned, ownedBy, ofList_abs, ofList_triple, List.length_nil]; by_cases x1 : t1 = t <;> by_cases x2 : t2 = t <;> simp [x1, x2]⟩,
+        by rw [e2.fault, e1.fault], fun hs => e2.sched (e1.sched hs)⟩
+    · simp [a2] at h1
+  · simp [a1] at h0
+
+/-- **C04 from the constructors, any refusal schedule.** Two lists built by `cc_list_new` /
+`cc_list_new_conf` (any assignment of triples) are empty and satisfy the invariant; every history on
+them behaves like the history on two empty ideal lists on which the refused operations did not
+happen, keeps the invariant and the ledger bound, and raises no fault. -/
+theorem dlist_new_history_refines_skipping (P : Params) (t1 t2 : Triple) (ops : List Op) (m0 : Mem) (l0 l1 : Chain)
+    (h0 : (DList.new t1 m0).2.1 = some l0) (h1 : (DList.new t2 (DList.new t1 m0).2.2).2.1 = some l1)
+    (hc : t1 = t2 ∨ ∀ op, op ∈ ops → isSplice op = false) :
+    (DList.run P (l0, l1) ops (DList.new t2 (DList.new t1 m0).2.2).2.2).1 =
+      (LSeq.runSkipping true P ([], []) ops ((DList.run P (l0, l1) ops (DList.new t2 (DList.new t1 m0).2.2).2.2).1.map (·.st))).1 ∧
+    ((DList.run P (l0, l1) ops (DList.new t2 (DList.new t1 m0).2.2).2.2).2.1.1.abs,
+     (DList.run P (l0, l1) ops (DList.new t2 (DList.new t1 m0).2.2).2.2).2.1.2.abs) =
+      (LSeq.runSkipping true P ([], []) ops ((DList.run P (l0, l1) ops (DList.new t2 (DList.new t1 m0).2.2).2.2).1.map (·.st))).2 ∧
+    PairOk (DList.run P (l0, l1) ops (DList.new t2 (DList.new t1 m0).2.2).2.2).2.1
+      (DList.run P (l0, l1) ops (DList.new t2 (DList.new t1 m0).2.2).2.2).2.2 ∧
+    (DList.run P (l0, l1) ops (DList.new t2 (DList.new t1 m0).2.2).2.2).2.2.fault = m0.fault := by
+  obtain ⟨e0, e1, hp, hf, _⟩ := dlist_new_pairOk t1 t2 m0 l0 l1 h0 h1
+  have hcc : Compat (l0, l1) ops := by subst e0 e1; exact hc
+  have := dlist_history_refines_skipping P ops (l0, l1) _ hp hcc
+  have ea : ((l0, l1).1.abs, (l0, l1).2.abs) = (([] : List Nat), ([] : List Nat)) := by subst e0 e1; rfl
+  rw [ea] at this
+  exact ⟨this.1, this.2.1, this.2.2.1, by rw [this.2.2.2, hf]⟩
+
+/-- … and with an allocator that never refuses both constructors succeed and the history is exactly
+the ideal one -/
+theorem dlist_new_history_refines (P : Params) (t1 t2 : Triple) (ops : List Op) (m0 : Mem) (hs : m0.sched = [])
+    (hc : t1 = t2 ∨ ∀ op, op ∈ ops → isSplice op = false) :
+    ∃ l0 l1 m2, (DList.new t1 m0).2.1 = some l0 ∧ (DList.new t2 (DList.new t1 m0).2.2).2.1 = some l1 ∧
+      m2 = (DList.new t2 (DList.new t1 m0).2.2).2.2 ∧
       (DList.run P (l0, l1) ops m2).1 = (LSeq.run true P ([], []) ops).1 ∧
-      ((DList.run P (l0, l1) ops m2).2.1.1.abs, (DList.run P (l0, l1) ops m2).2.1.2.abs) = (LSeq.run true P ([], []) ops).2 := by
-  have a1 := Mem.alloc_nil m0 hs
-  have a2 := Mem.alloc_nil m0.alloc.2 a1.2
-  have e1 := Mem.alloc_fst_true m0 a1.1
-  have e2 := Mem.alloc_fst_true m0.alloc.2 a2.1
-  refine ⟨ofList [], ofList [], m0.alloc.2.alloc.2, ?_, ?_, ?_, by omega, ?_⟩
-  · simp [DList.new_eq, a1.1]
-  · simp [DList.new_eq, a1.1, a2.1]
-  · simp [DList.new_eq, a1.1, a2.1]
-  · have := dlist_history_refines P ops (ofList [], ofList []) m0.alloc.2.alloc.2
-      ⟨ofList_inv _, ofList_inv _, by simp⟩ a2.2
-    exact ⟨this.1, this.2.1⟩
+      ((DList.run P (l0, l1) ops m2).2.1.1.abs, (DList.run P (l0, l1) ops m2).2.1.2.abs) = (LSeq.run true P ([], []) ops).2 ∧
+      PairOk (DList.run P (l0, l1) ops m2).2.1 (DList.run P (l0, l1) ops m2).2.2 ∧
+      (DList.run P (l0, l1) ops m2).2.2.fault = m0.fault := by
+  have a1 := Mem.allocT_nil m0 t1 hs
+  have a2 := Mem.allocT_nil (m0.allocT t1).2 t2 a1.2
+  have h0 : (DList.new t1 m0).2.1 = some (ofList t1 []) := by simp [DList.new_eq, a1.1]
+  have h1 : (DList.new t2 (DList.new t1 m0).2.2).2.1 = some (ofList t2 []) := by simp [DList.new_eq, a1.1, a2.1]
+  obtain ⟨_, _, hp, hf, hsch⟩ := dlist_new_pairOk t1 t2 m0 _ _ h0 h1
+  have := dlist_history_refines P ops (ofList t1 [], ofList t2 []) _ hp hc (hsch hs)
+  exact ⟨_, _, _, h0, h1, rfl, this.1, this.2.1, this.2.2.1, by rw [this.2.2.2.1, hf]⟩
 
-/-- the same for `cc_slist_new_conf` -/
-theorem slist_new_history_refines (P : Params) (ops : List Op) (m0 : Mem) (hs : m0.sched = []) :
-    ∃ l0 l1 m2, (SList.new m0).2.1 = some l0 ∧ (SList.new (SList.new m0).2.2).2.1 = some l1 ∧
-      m2 = (SList.new (SList.new m0).2.2).2.2 ∧ m2.live = m0.live + 2 ∧
+/-- the same for `cc_slist_new` / `cc_slist_new_conf` -/
+theorem slist_new_history_refines_skipping (P : Params) (t1 t2 : Triple) (ops : List Op) (m0 : Mem) (l0 l1 : Chain)
+    (h0 : (SList.new t1 m0).2.1 = some l0) (h1 : (SList.new t2 (SList.new t1 m0).2.2).2.1 = some l1)
+    (hc : t1 = t2 ∨ ∀ op, op ∈ ops → isSplice op = false) :
+    (SList.run P (l0, l1) ops (SList.new t2 (SList.new t1 m0).2.2).2.2).1 =
+      (LSeq.runSkipping false P ([], []) ops ((SList.run P (l0, l1) ops (SList.new t2 (SList.new t1 m0).2.2).2.2).1.map (·.st))).1 ∧
+    ((SList.run P (l0, l1) ops (SList.new t2 (SList.new t1 m0).2.2).2.2).2.1.1.abs,
+     (SList.run P (l0, l1) ops (SList.new t2 (SList.new t1 m0).2.2).2.2).2.1.2.abs) =
+      (LSeq.runSkipping false P ([], []) ops ((SList.run P (l0, l1) ops (SList.new t2 (SList.new t1 m0).2.2).2.2).1.map (·.st))).2 ∧
+    PairOk (SList.run P (l0, l1) ops (SList.new t2 (SList.new t1 m0).2.2).2.2).2.1
+      (SList.run P (l0, l1) ops (SList.new t2 (SList.new t1 m0).2.2).2.2).2.2 ∧
+    (SList.run P (l0, l1) ops (SList.new t2 (SList.new t1 m0).2.2).2.2).2.2.fault = m0.fault := by
+  obtain ⟨e0, e1, hp, hf, _⟩ := slist_new_pairOk t1 t2 m0 l0 l1 h0 h1
+  have hcc : Compat (l0, l1) ops := by subst e0 e1; exact hc
+  have := slist_history_refines_skipping P ops (l0, l1) _ hp hcc
+  have ea : ((l0, l1).1.abs, (l0, l1).2.abs) = (([] : List Nat), ([] : List Nat)) := by subst e0 e1; rfl
+  rw [ea] at this
+  exact ⟨this.1, this.2.1, this.2.2.1, by rw [this.2.2.2, hf]⟩
+
+theorem slist_new_history_refines (P : Params) (t1 t2 : Triple) (ops : List Op) (m0 : Mem) (hs : m0.sched = [])
+    (hc : t1 = t2 ∨ ∀ op, op ∈ ops → isSplice op = false) :
+    ∃ l0 l1 m2, (SList.new t1 m0).2.1 = some l0 ∧ (SList.new t2 (SList.new t1 m0).2.2).2.1 = some l1 ∧
+      m2 = (SList.new t2 (SList.new t1 m0).2.2).2.2 ∧
       (SList.run P (l0, l1) ops m2).1 = (LSeq.run false P ([], []) ops).1 ∧
-      ((SList.run P (l0, l1) ops m2).2.1.1.abs, (SList.run P (l0, l1) ops m2).2.1.2.abs) = (LSeq.run false P ([], []) ops).2 := by
-  have a1 := Mem.alloc_nil m0 hs
-  have a2 := Mem.alloc_nil m0.alloc.2 a1.2
-  have e1 := Mem.alloc_fst_true m0 a1.1
-  have e2 := Mem.alloc_fst_true m0.alloc.2 a2.1
-  refine ⟨ofList [], ofList [], m0.alloc.2.alloc.2, ?_, ?_, ?_, by omega, ?_⟩
-  · simp [SList.new_eq, a1.1]
-  · simp [SList.new_eq, a1.1, a2.1]
-  · simp [SList.new_eq, a1.1, a2.1]
-  · have := slist_history_refines P ops (ofList [], ofList []) m0.alloc.2.alloc.2
-      ⟨ofList_inv _, ofList_inv _, by simp⟩ a2.2
-    exact ⟨this.1, this.2.1⟩
+      ((SList.run P (l0, l1) ops m2).2.1.1.abs, (SList.run P (l0, l1) ops m2).2.1.2.abs) = (LSeq.run false P ([], []) ops).2 ∧
+      PairOk (SList.run P (l0, l1) ops m2).2.1 (SList.run P (l0, l1) ops m2).2.2 ∧
+      (SList.run P (l0, l1) ops m2).2.2.fault = m0.fault := by
+  have a1 := Mem.allocT_nil m0 t1 hs
+  have a2 := Mem.allocT_nil (m0.allocT t1).2 t2 a1.2
+  have h0 : (SList.new t1 m0).2.1 = some (ofList t1 []) := by simp [SList.new_eq, a1.1]
+  have h1 : (SList.new t2 (SList.new t1 m0).2.2).2.1 = some (ofList t2 []) := by simp [SList.new_eq, a1.1, a2.1]
+  obtain ⟨_, _, hp, hf, hsch⟩ := slist_new_pairOk t1 t2 m0 _ _ h0 h1
+  have := slist_history_refines P ops (ofList t1 [], ofList t2 []) _ hp hc (hsch hs)
+  exact ⟨_, _, _, h0, h1, rfl, this.1, this.2.1, this.2.2.1, by rw [this.2.2.2.1, hf]⟩
 
 /-! ## What the invariant says about the observable content -/
 
-/-- **Backward traversal is the exact mirror of the forward one** (doubly linked list): walking
-`prev` from the stored `tail` yields the reverse of walking `next` from the stored `head`; both are
-the content, and `size` is its length.  The content of this statement is that the hand-maintained
-`head`/`tail`/`size` stay right; that the `prev` links mirror the `next` links on the heap is checked
-by the harness walker on every run. -/
-theorem mirror (l : Chain) (h : l.Inv) :
+/-- **Backward traversal is the mirror of the forward one — at the level of the model** (doubly
+linked list): `backward` (from the stored `tail` towards the front) is the reverse of `forward` (from
+the stored `head`); both are the content, and `size` is its length.  The content of this statement is
+that the hand-maintained `head`/`tail`/`size` stay right.  The raw `prev`/`next` links are *not* state
+of the model (`_model` in the name): that the `prev` links mirror the `next` links on the heap is
+checked by the harness walker on every run, not proved here. -/
+theorem mirror_model (l : Chain) (h : l.Inv) :
     l.backward = l.forward.reverse ∧ l.forward = l.abs ∧ l.size = l.abs.length := by
   rw [h.eq]; simp
 
-/-- after every history both traversals of both lists are mirrors (corollary of the history theorem) -/
-theorem dlist_history_mirror (P : Params) (ops : List Op) (s : Chain × Chain) (m : Mem) (h : PairOk s m) :
+/-- after every history both traversals of both lists are mirrors (model level, see `mirror_model`) -/
+theorem dlist_history_mirror_model (P : Params) (ops : List Op) (s : Chain × Chain) (m : Mem) (h : PairOk s m)
+    (hc : Compat s ops) :
     (DList.run P s ops m).2.1.1.backward = (DList.run P s ops m).2.1.1.forward.reverse ∧
     (DList.run P s ops m).2.1.2.backward = (DList.run P s ops m).2.1.2.forward.reverse := by
-  have := (dlist_history_refines_skipping P ops s m h).2.2.1
-  exact ⟨(mirror _ this.1).1, (mirror _ this.2.1).1⟩
+  have := (dlist_history_refines_skipping P ops s m h hc).2.2.1
+  exact ⟨(mirror_model _ this.1).1, (mirror_model _ this.2.1).1⟩
+
+/-- **the mirror clause in terms of the C observers**: on a list satisfying the invariant, `size`
+calls of `cc_list_diter_next` from a fresh descending iterator yield, element by element, the reverse
+of what `size` calls of `cc_list_iter_next` from a fresh ascending iterator yield; both are all `CC_OK`
+and the next call of either reports `CC_ITER_END` -/
+theorem traversals_mirror (l : Chain) (h : l.Inv) (m : Mem) :
+    (DList.diterNexts l l.size (DList.diterInit l) m).1 = (DList.iterNexts l l.size (DList.iterInit l) m).1.reverse ∧
+    (DList.iterNexts l l.size (DList.iterInit l) m).1 = l.abs.map (fun v => (Stat.ok, some v)) ∧
+    (DList.iterNext l (DList.iterNexts l l.size (DList.iterInit l) m).2.1 m).1 = .iterEnd ∧
+    (DList.diterNext l (DList.diterNexts l l.size (DList.diterInit l) m).2.1 m).1 = .iterEnd := by
+  rw [h.eq]
+  generalize l.abs = xs
+  generalize l.triple = t
+  have a := DList.iterNexts_refines (t := t) xs xs.length LSeq.itNew _ m (DList.iterInit_rel (t := t) xs)
+  have b := DList.diterNexts_refines (t := t) xs xs.length (LSeq.ditNew xs) _ m (DList.diterInit_rel (t := t) xs)
+  have sa := LSeqT.nexts_spec xs xs.length LSeq.itNew (by simp [LSeq.itNew])
+  have sb := LSeqT.dnexts_spec xs xs.length (LSeq.ditNew xs) (by simp [LSeq.ditNew]) (by simp [LSeq.ditNew])
+  obtain ⟨ia, ea, ra⟩ := DList.iterNext_ofList (t := t) xs _ _ m a.2.1
+  obtain ⟨ib, eb, rb⟩ := DList.diterNext_ofList (t := t) xs _ _ m b.2.1
+  simp only [ofList_size]
+  refine ⟨?_, ?_, ?_, ?_⟩
+  · rw [a.1, b.1, sa.1, sb.1]; simp only [LSeq.itNew, LSeq.ditNew, List.drop_zero, List.take_length, ← List.map_reverse]
+    rw [List.take_of_length_le (by simp)]
+  · rw [a.1, sa.1]; simp [LSeq.itNew]
+  · rw [ea]; exact (LSeqT.next_end_iff xs _ a.2.1.le).2 (by rw [sa.2]; simp [LSeq.itNew])
+  · rw [eb]; exact (LSeqT.dnext_end_iff xs _ b.2.1.le).2 (by rw [sb.2]; simp [LSeq.ditNew])
+
+/-- … hence after **every history** (any refusal schedule) the backward traversal of either list by the
+descending iterator is the exact mirror of its forward traversal by the ascending iterator -/
+theorem dlist_history_traversals_mirror (P : Params) (ops : List Op) (s : Chain × Chain) (m : Mem) (h : PairOk s m)
+    (hc : Compat s ops) (m' : Mem) :
+    (DList.diterNexts (DList.run P s ops m).2.1.1 (DList.run P s ops m).2.1.1.size (DList.diterInit (DList.run P s ops m).2.1.1) m').1 =
+      (DList.iterNexts (DList.run P s ops m).2.1.1 (DList.run P s ops m).2.1.1.size (DList.iterInit (DList.run P s ops m).2.1.1) m').1.reverse ∧
+    (DList.diterNexts (DList.run P s ops m).2.1.2 (DList.run P s ops m).2.1.2.size (DList.diterInit (DList.run P s ops m).2.1.2) m').1 =
+      (DList.iterNexts (DList.run P s ops m).2.1.2 (DList.run P s ops m).2.1.2.size (DList.iterInit (DList.run P s ops m).2.1.2) m').1.reverse := by
+  have := (dlist_history_refines_skipping P ops s m h hc).2.2.1
+  exact ⟨(traversals_mirror _ this.1 m').1, (traversals_mirror _ this.2.1 m').1⟩
 
 /-! ## The property in its own vocabulary (facts about the ideal lists) -/
 
@@ -288,11 +407,12 @@ theorem spec_index_rejected (dbl : Bool) (P : Params) (a b : List Nat) (x i : Na
   simp [LSeq.step, LSeq.addAllAt, LSeq.spliceAt, hb, hc]
 
 /-- **C16 on the concrete models**: a step that reports an error status other than `CC_ERR_ALLOC`
-leaves both lists physically unchanged (nodes, `size`, `head`, `tail`) and the ledger balanced -/
+leaves both lists physically unchanged (nodes, `size`, `head`, `tail`, triple) and the ledger balanced
+(`Properties/C16List.lean` sharpens the last part to "the whole allocator state is unchanged") -/
 theorem step_error_inert {dbl : Bool} {P : Params} {s : Chain × Chain} {op : Op} {m : Mem}
     {r : Out × (Chain × Chain) × Mem} (h : PairOk s m) (hr : StepRefines dbl P s op m r) (e : Stat)
-    (hst : r.1.st = some e) (he : e ≠ .ok) (hea : e ≠ .errAlloc) : r.2.1 = s ∧ r.2.2.live = m.live := by
-  obtain ⟨h1, _, h3, _, _, h6, _⟩ := hr
+    (hst : r.1.st = some e) (he : e ≠ .ok) (hea : e ≠ .errAlloc) : r.2.1 = s ∧ ∀ t, r.2.2.liveT t = m.liveT t := by
+  obtain ⟨h1, htr, _, h3, _, _, h6, _, _⟩ := hr
   have hne : r.1.st ≠ some .errAlloc := by rw [hst]; intro c; exact hea (Option.some.inj c)
   have e3 := h3 hne
   have hsp : (LSeq.step dbl P (s.1.abs, s.2.abs) op).1.st = some e := by rw [← e3]; exact hst
@@ -300,43 +420,62 @@ theorem step_error_inert {dbl : Bool} {P : Params} {s : Chain × Chain} {op : Op
   rw [← e3] at hin
   have ha : r.2.1.1.abs = s.1.abs := congrArg Prod.fst hin
   have hb : r.2.1.2.abs = s.2.abs := congrArg Prod.snd hin
-  refine ⟨?_, by rw [ha, hb] at h6; omega⟩
-  apply Prod.ext
-  · rw [h1.1.eq, h.1.eq, ha]
-  · rw [h1.2.1.eq, h.2.1.eq, hb]
+  have hsw : op ≠ .swapRoles := by intro c; subst c; simp [LSeq.step] at hsp
+  obtain ⟨t1, t2⟩ := htr.2.1 hsw
+  refine ⟨?_, fun t => ?_⟩
+  · apply Prod.ext
+    · rw [h1.1.eq, h.1.eq, ha, t1]
+    · rw [h1.2.1.eq, h.2.1.eq, hb, t2]
+  · have := h6 t; simp only [owned, ha, hb, t1, t2] at this; omega
 
 /-! ## Destruction (C06 part for the lists) -/
 
 /-- `cc_list_destroy` / `cc_list_destroy_cb` from any state satisfying the invariant release every
-node block and the header exactly once (no fault: nothing is released twice), and the callback
-variant hands every held element to the callback exactly once, in list order -/
-theorem dlist_destroy_ledger (l : Chain) (h : l.Inv) (m : Mem) (hl : l.abs.length + 1 ≤ m.live) :
-    (DList.destroy l m).live + (l.abs.length + 1) = m.live ∧ (DList.destroy l m).fault = m.fault ∧
+node block and the header exactly once **through the list's own allocator triple** (no fault: nothing
+is released twice, nothing through a foreign allocator), and the callback variant hands every held
+element to the callback exactly once, in list order -/
+theorem dlist_destroy_ledger (l : Chain) (h : l.Inv) (m : Mem) (hl : l.abs.length + 1 ≤ m.liveT l.triple) :
+    (DList.destroy l m).liveT l.triple + (l.abs.length + 1) = m.liveT l.triple ∧ (DList.destroy l m).fault = m.fault ∧
+    Mem.Frame l.triple m (DList.destroy l m) ∧
     DList.destroyCb l m = (l.abs, DList.destroy l m) := by
   rw [h.eq, DList.destroy_ofList, DList.destroyCb_ofList]
-  have := Mem.freeN_live (l.abs.length + 1) m hl
-  simp only [ofList_abs]
-  exact ⟨by omega, this.2.1, trivial⟩
+  simp only [ofList_abs, ofList_triple]
+  have := Mem.freeN_live l.triple (l.abs.length + 1) m hl
+  exact ⟨by omega, this.2.1, this.2.2, trivial⟩
 
 /-- the same for `cc_slist_destroy` / `cc_slist_destroy_cb` -/
-theorem slist_destroy_ledger (l : Chain) (h : l.Inv) (m : Mem) (hl : l.abs.length + 1 ≤ m.live) :
-    (SList.destroy l m).live + (l.abs.length + 1) = m.live ∧ (SList.destroy l m).fault = m.fault ∧
+theorem slist_destroy_ledger (l : Chain) (h : l.Inv) (m : Mem) (hl : l.abs.length + 1 ≤ m.liveT l.triple) :
+    (SList.destroy l m).liveT l.triple + (l.abs.length + 1) = m.liveT l.triple ∧ (SList.destroy l m).fault = m.fault ∧
+    Mem.Frame l.triple m (SList.destroy l m) ∧
     SList.destroyCb l m = (l.abs, SList.destroy l m) := by
   rw [h.eq, SList.destroy_ofList, SList.destroyCb_ofList]
-  have := Mem.freeN_live (l.abs.length + 1) m hl
-  simp only [ofList_abs]
-  exact ⟨by omega, this.2.1, trivial⟩
+  simp only [ofList_abs, ofList_triple]
+  have := Mem.freeN_live l.triple (l.abs.length + 1) m hl
+  exact ⟨by omega, this.2.1, this.2.2, trivial⟩
 
-/-! ## Non-vacuity: two non-trivial states satisfy the hypotheses, and a history with a bulk insertion
-in the middle, a refusal-free splice and a rejected index runs as the ideal lists say -/
-example : PairOk (ofList [3, 1, 4], ofList [1, 5]) { live := 7 } := by
-  refine ⟨ofList_inv _, ofList_inv _, ?_⟩; decide
+/-! ## Non-vacuity: two non-trivial states on **different** allocator triples satisfy the hypotheses, and a
+history with a bulk insertion in the middle and a rejected index (same-triple variant: also a splice)
+runs as the ideal lists say -/
+example : PairOk (ofList .conf [3, 1, 4], ofList .libc [1, 5]) { live := 4, liveLibc := 3 } := by
+  refine ⟨ofList_inv _, ofList_inv _, ?_⟩; intro t; cases t <;> decide
+
+example : Compat (ofList .conf [3, 1, 4], ofList .libc [1, 5]) [.addAllAt 1, .removeAt 9, .swapRoles, .reverse, .filterMut] := by
+  right; intro op h; simp at h; rcases h with h | h | h | h | h <;> subst h <;> rfl
 
 example :
-    ((DList.run ⟨fun v => v % 2 == 0, LSeq.cmpNum⟩ (ofList [3, 1, 4], ofList [1, 5])
+    ((DList.run ⟨fun v => v % 2 == 0, LSeq.cmpNum⟩ (ofList .conf [3, 1, 4], ofList .conf [1, 5])
         [.addAllAt 1, .removeAt 9, .swapRoles, .splice, .reverse, .filterMut] { live := 7 }).2.1.1.abs,
-     (DList.run ⟨fun v => v % 2 == 0, LSeq.cmpNum⟩ (ofList [3, 1, 4], ofList [1, 5])
+     (DList.run ⟨fun v => v % 2 == 0, LSeq.cmpNum⟩ (ofList .conf [3, 1, 4], ofList .conf [1, 5])
         [.addAllAt 1, .removeAt 9, .swapRoles, .splice, .reverse, .filterMut] { live := 7 }).2.1.2.abs) = ([4], []) := by
+  decide
+
+/-- a mixed pair: `add_all_at` into the configured list from the C-library list takes the three new
+node blocks from the configured allocator only -/
+example :
+    ((DList.run ⟨fun v => v % 2 == 0, LSeq.cmpNum⟩ (ofList .conf [3, 1, 4], ofList .libc [1, 5])
+        [.addAllAt 1] { live := 4, liveLibc := 3 }).2.2.live,
+     (DList.run ⟨fun v => v % 2 == 0, LSeq.cmpNum⟩ (ofList .conf [3, 1, 4], ofList .libc [1, 5])
+        [.addAllAt 1] { live := 4, liveLibc := 3 }).2.2.liveLibc) = (6, 3) := by
   decide
 
 end CC.Properties.C04
